@@ -323,3 +323,70 @@ Definition check_ctree_pair (inexact : bool) (pts : list (list (string * Q))) (a
   let ps := points_of pts in
   (cmp_trees (S (ct_height a)) inexact ps a b ++ cmp_trees (S (ct_height a)) inexact ps b a
    ++ ctree_equiv (S (ct_height a)) inexact ps a b)%list.
+
+(* ---------- a derived resource computed on the leaves only (compile_routine(..., derived_resources=[...]) with a
+   calculator that answers for childless routines and says None elsewhere) ----------
+   The compiled hierarchy is the one obtained from the routine in which every leaf DECLARES that resource, except that
+   the resource reaches a node only through repetitions: a leaf has it; a repeated routine has it when its (single)
+   child has it; no other routine has it (nothing propagates a resource that appears after preprocessing). *)
+Fixpoint keeps_derived (fuel : nat) (r : routine) : bool :=
+  match fuel with
+  | O => false
+  | S f =>
+      match rchildren r, rrep r with
+      | [], _ => true
+      | [k], Some _ => keeps_derived f k
+      | _, _ => false
+      end
+  end.
+
+Definition drop_res {V} (x : string) (l : list (string * V)) : list (string * V) :=
+  filter (fun nr => negb (String.eqb (fst nr) x)) l.
+
+Fixpoint prune_ct (fuel : nat) (x : string) (r : routine) (t : ctree expr) : ctree expr :=
+  match fuel with
+  | O => t
+  | S f =>
+      match t with
+      | CT n ty ins sp ports res conns rep cs kids =>
+          CT n ty ins sp ports (if keeps_derived (S (height r)) r then res else drop_res x res) conns rep cs
+             (map (fun k => match find_child (ct_name k) (rchildren r) with
+                            | Some c => prune_ct f x c k
+                            | None => k
+                            end) kids)
+      end
+  end.
+
+Fixpoint prune_vt (fuel : nat) (x : string) (r : routine) (v : vtree) : vtree :=
+  match fuel with
+  | O => v
+  | S f =>
+      match v with
+      | VT n res ports kids ok w mism =>
+          VT n (if keeps_derived (S (height r)) r then res else drop_res x res) ports
+             (map (fun k => match find_child (vt_name k) (rchildren r) with
+                            | Some c => prune_vt f x c k
+                            | None => k
+                            end) kids) ok w mism
+      end
+  end.
+
+(* r' : the routine with the resource declared on its leaves; x : the resource's name *)
+Definition check_derived_leaf (r' : routine) (x : string) (impl : impl_result) (inexact : bool) (pts : list (list (string * Q)))
+  : list nat * list nat :=
+  (match compile_routine r', impl with
+   | Ok m0, IOk t =>
+       let m := prune_ct (S (ct_height m0)) x r' m0 in
+       (cmp_trees (S (ct_height m)) inexact
+                  (filter (fun rho => counts_natural (S (ct_height m)) rho m) (points_of pts)) m t
+        ++ cmp_params (S (ct_height m)) m t)%list
+   | res, IErr cls => [if String.eqb (err_class res) cls then 0%nat else 1%nat]
+   | res, IOk _ => [1%nat]
+   end,
+   match impl with
+   | IOk t =>
+       flat_map (fun p => let rho := envQ p (dfltQ 0) in
+                          let v := prune_vt (S (height r')) x r' (den_src rho (S (height r')) true "" r' [] [] []) in
+                          if vt_ok v then cmp_vtree (S (height r')) inexact rho v t else [1%nat]) pts
+   | IErr _ => []
+   end).
